@@ -167,6 +167,27 @@ func (s *Server) Set(ns, nm int, labels kobj.Map, node int) *kobj.Obj {
 	return o
 }
 
+// MarkTerminating gives an existing object a deletionTimestamp (a new version,
+// a MODIFIED frame): graceful deletion has begun, the object is still there.
+func (s *Server) MarkTerminating(ns, nm int) *kobj.Obj {
+	s.mu.Lock()
+	defer s.mu.Unlock()
+	k := [2]int{ns, nm}
+	old, ok := s.objects[k]
+	if !ok {
+		return nil
+	}
+	s.version++
+	o := *old
+	o.ID = s.nextID
+	o.RV = strconv.Itoa(s.version)
+	o.Terminating = true
+	s.nextID++
+	s.objects[k] = &o
+	s.append(LogEntry{s.version, watch.Modified, &o})
+	return &o
+}
+
 // Put creates or modifies an object from a prototype (kind, namespace, name,
 // labels and spec are taken from it); the server assigns identity and version.
 func (s *Server) Put(proto kobj.Obj) *kobj.Obj {
